@@ -267,7 +267,7 @@ theorem gotOf_seen (o : Option Client) : (gotOf o).seen = seenOf o := by
   cases o <;> rfl
 
 theorem Client.apply_eq (c : Client) (g : Settings) : c.apply g = effective (some c) g := by
-  obtain ⟨uid, name, ips, subnets, macs, cids, inv, own, f, ss, sb, par, ownSvc, svc, sso, tags, ver⟩ := c
+  obtain ⟨uid, name, ips, subnets, macs, cids, inv, own, f, ss, sb, par, ownSvc, svc, sso, tags, ver, _, _, _, _, _, _⟩ := c
   unfold Client.apply effective
   cases own <;> cases ownSvc <;> simp
 
